@@ -423,4 +423,112 @@ theorem reqs_sim {caps : TermPen.Caps} {t0 : GridTerm} {s0 : XScreen} :
     rw [h3, h4] at this
     simpa only [GridTerm.runL, reqsCalls, List.flatten_append, XScreen.interp_append] using this
 
+/-! ### From the grid terminal's `cellOK` to the VT screen's `xcellOK` -/
+
+theorem equivColour_cases (a b : Option Colour) (h : Pen.equivColour a b = true) :
+    Pen.getColour a = Pen.getColour b ∧ Pen.getRgb a = Pen.getRgb b := by
+  unfold Pen.equivColour at h
+  by_cases hc : Pen.getColour a ≠ Pen.getColour b
+  · simp [hc] at h
+  · simp only [hc, if_false] at h
+    refine ⟨by simpa using hc, ?_⟩
+    cases hra : Pen.getRgb a with
+    | none =>
+      cases hrb : Pen.getRgb b with
+      | none => rfl
+      | some y => simp [hra, hrb] at h
+    | some x =>
+      cases hrb : Pen.getRgb b with
+      | none => simp [hra, hrb] at h
+      | some y =>
+        simp only [hra, hrb, Bool.and_eq_true, beq_iff_eq] at h
+        cases x; cases y
+        simp_all
+
+/-- The colour a terminal of 256 colours shows for a colour attribute. -/
+def shownColour (rgb8 : Bool) (o : Option Colour) : Sgr.Colr :=
+  TermPen.expectColour rgb8 ((o.map toTPColour).map (TermPen.convColour 256))
+
+theorem shownColour_val (rgb8 : Bool) (o : Option Colour) :
+    shownColour rgb8 o = shownColour rgb8 (some ⟨Pen.getColour o, Pen.getRgb o⟩) := by
+  cases o with
+  | none => simp [shownColour, TermPen.expectColour, TermPen.convColour, toTPColour, Pen.getColour, Pen.getRgb]
+  | some c => cases c; rfl
+
+theorem shownColour_congr (rgb8 : Bool) (a b : Option Colour) (h : Pen.equivColour a b = true) :
+    shownColour rgb8 a = shownColour rgb8 b := by
+  obtain ⟨h1, h2⟩ := equivColour_cases a b h
+  rw [shownColour_val rgb8 a, shownColour_val rgb8 b, h1, h2]
+
+/-- Pens that are `tickit_pen_equiv` ask for the same rendition. -/
+theorem expectAttrs_of_penSame (caps : TermPen.Caps) (a b : Pen) (h : penSame a b = true) :
+    expectAttrs caps a = expectAttrs caps b := by
+  simp only [penSame, Pen.equiv, Bool.and_eq_true, Pen.equivBool, Pen.equivInt, beq_iff_eq] at h
+  obtain ⟨⟨⟨⟨⟨⟨⟨⟨⟨h1, h2⟩, h3⟩, h4⟩, h5⟩, h6⟩, h7⟩, h8⟩, h9⟩, h10⟩ := h
+  have e1 := shownColour_congr caps.rgb8 _ _ h1
+  have e2 := shownColour_congr caps.rgb8 _ _ h2
+  simp only [shownColour] at e1 e2
+  simp only [expectAttrs, TermPen.expected, TermPen.expectAttrs, TermPen.convPen, toTP, e1, e2]
+  simp only [Pen.getBool, Pen.getInt] at h3 h4 h5 h6 h7 h8 h9 h10
+  simp only [TermPen.getBool, TermPen.getInt, h3, h4, h5, h6, h7, h8, h9, h10]
+
+theorem expectAttrs_reverse (caps : TermPen.Caps) (p : Pen) : (expectAttrs caps p).reverse = Pen.getBool p.reverse := rfl
+
+/-- **sim_xcellOK**: where the grid terminal meets the obligation of the buffer's content (`cellOK`: glyph, a pen
+    equivalent to the cell's, written once), the VT screen in step with it meets the obligation stated on the screen
+    (`xcellOK`: glyph, the rendition that pen asks for - an erased cell: its background, the pen not asking for
+    reverse video -, written once). -/
+theorem sim_xcellOK {caps : TermPen.Caps} {t0 t : GridTerm} {s0 s : XScreen} (h : Sim caps t0 s0 t s) (l c : Int)
+    (w : Want) (hw0 : (s0.cells l c).writes = (t0.cells l c).writes)
+    (hrv : ∀ p, w = .glyph .blank p → Pen.getBool p.reverse = false)
+    (hok : cellOK w (t0.cells l c) (t.cells l c) = true) :
+    xcellOK caps w (s0.cells l c) (s.cells l c) = true := by
+  have hwr := h.writes l c
+  cases w with
+  | keep =>
+    simp only [cellOK, beq_iff_eq] at hok
+    rcases h.cells l c with ⟨_, h2⟩ | ⟨h1, _⟩
+    · simp [xcellOK, h2]
+    · rw [hok] at h1; exact absurd h1 (Nat.lt_irrefl _)
+  | unspecified => rfl
+  | glyph g p =>
+    simp only [cellOK, Bool.and_eq_true, beq_iff_eq] at hok
+    obtain ⟨⟨hg, hp⟩, hwt⟩ := hok
+    rcases h.cells l c with ⟨h1, _⟩ | ⟨_, h2, h3⟩
+    · rw [h1] at hwt; omega
+    · have he := expectAttrs_of_penSame caps _ _ hp
+      rw [he] at h3
+      simp only [xcellOK, Bool.and_eq_true, beq_iff_eq]
+      refine ⟨⟨by simp [glyphSame, h2, hg], ?_⟩, by omega⟩
+      unfold attrsShow
+      rw [h2, hg]
+      cases g with
+      | blank =>
+        rw [hg] at h3
+        simp only [if_true] at h3
+        simp [h3, XScreen.blankAttrs, expectAttrs_reverse, hrv p rfl]
+      | chars bs =>
+        rw [hg] at h3
+        simpa using h3
+      | wcont =>
+        rw [hg] at h3
+        simpa using h3
+  | line m p =>
+    simp only [cellOK, Bool.and_eq_true, beq_iff_eq] at hok
+    obtain ⟨⟨hg, hp⟩, hwt⟩ := hok
+    rcases h.cells l c with ⟨h1, _⟩ | ⟨_, h2, h3⟩
+    · rw [h1] at hwt; omega
+    · have he := expectAttrs_of_penSame caps _ _ hp
+      rw [he] at h3
+      simp only [xcellOK, Bool.and_eq_true, beq_iff_eq]
+      cases hgl : (t.cells l c).glyph with
+      | blank => simp [hgl] at hg
+      | wcont => simp [hgl] at hg
+      | chars bs =>
+        rw [hgl] at hg h2 h3
+        refine ⟨⟨by simpa [h2] using hg, ?_⟩, by omega⟩
+        unfold attrsShow
+        rw [h2]
+        simpa using h3
+
 end Tickit.RBFlushX
